@@ -81,6 +81,10 @@ instance : Monad P where
 def cur : P Token := fun σ => .ok (σ.cur, σ)
 def advance : P Unit := fun σ => .ok ((), σ.adv)
 def fail {α} (pos : Nat) : P α := fun σ => .error (.syntax pos σ.bad σ.toks.length)
+/-- an error that blames the token AFTER the current one (reached through `lookahead`) when `ahead`, the current one otherwise;
+`left` always counts the tokens from the blamed one on -/
+def failAt {α} (ahead : Bool) (pos : Nat) : P α := fun σ =>
+  .error (.syntax pos σ.bad (if ahead then σ.toks.length - 1 else σ.toks.length))
 def outOfFuel {α} : P α := fun _ => .error .fuel
 def flagBad : P Unit := fun σ => .ok ((), { σ with bad := true })
 /-- `loc(parser, start)` -/
@@ -535,13 +539,13 @@ def keywordToken : P Token := do
     let kw ← lookahead
     -- 75de65f: only definitions that take a description may follow one
     if kw.kind = .name ∧ ¬ (kw.value = "scalar" ∨ kw.value = "type" ∨ kw.value = "interface" ∨ kw.value = "union" ∨
-        kw.value = "enum" ∨ kw.value = "input" ∨ kw.value = "directive") then fail kw.start
+        kw.value = "enum" ∨ kw.value = "input" ∨ kw.value = "directive") then failAt true kw.start
     else pure kw
   else pure tok
 
-/-- `tokenDefinitionFn[keywordToken.Value]` -/
-def dispatchKeyword (kw : Token) : P Definition :=
-  if kw.kind ≠ .name then fail kw.start
+/-- `tokenDefinitionFn[keywordToken.Value]`; `ahead`: `kw` is the token after the current one (a description comes first) -/
+def dispatchKeyword (ahead : Bool) (kw : Token) : P Definition :=
+  if kw.kind ≠ .name then failAt ahead kw.start
   else if kw.value = "fragment" then parseFragmentDefinition
   else if kw.value = "query" ∨ kw.value = "mutation" ∨ kw.value = "subscription" then parseOperationDefinition
   else if kw.value = "schema" then parseSchemaDefinition
@@ -553,12 +557,13 @@ def dispatchKeyword (kw : Token) : P Definition :=
   else if kw.value = "input" then parseInputObjectTypeDefinition
   else if kw.value = "extend" then parseTypeExtensionDefinition
   else if kw.value = "directive" then parseDirectiveDefinition
-  else fail kw.start
+  else failAt ahead kw.start
 
 /-- `parseTypeSystemDefinition`: keyword dispatch through `tokenDefinitionFn`, looking past a description -/
 def parseTypeSystemDefinition : P Definition := do
+  let tok ← cur
   let kw ← keywordToken
-  dispatchKeyword kw
+  dispatchKeyword (decide (tok.kind = .string ∨ tok.kind = .blockString)) kw
 
 /-! ## Document -/
 
@@ -633,8 +638,9 @@ def parseValueTokens (all : List Token) : Except PErr Value :=
 when the text has a malformed lexeme after the tokens `toks` (all of which lex), the parser fails with the lexical
 error as soon as it advances past the last of `toks` (or looks ahead past it, `lookahead` after a description) — but a
 rejection it raises while the current token is still one of `toks`, BEFORE advancing, wins.  `parseLazy` is that
-behaviour in terms of M: run M on `toks` with an EOF offset no token starts at; the parser's own error stands iff it
-was raised with at least one token unconsumed (`left > 0`) and does not blame the (non-existent) token after `toks`. -/
+behaviour in terms of M: run M on `toks`; the parser's own error stands iff the token it blames is one of `toks`
+(`left > 0`: `left` counts the tokens from the blamed one on, so `0` means the non-existent token after `toks`, reached by
+advancing or looking ahead past the last one). -/
 
 /-- an offset that is not the start of any token of `toks` -/
 def freshEOF (toks : List Token) : Nat := toks.foldl (fun m t => max m (t.start + 1)) 0
@@ -651,7 +657,7 @@ deriving DecidableEq, Repr
 def parseLazy (toks : List Token) : LazyOut :=
   match parseDocument (initState toks (freshEOF toks)) with
   | .ok _ => .lexError
-  | .error (.syntax pos _ left) => if 0 < left ∧ pos ≠ freshEOF toks then .syntax pos else .lexError
+  | .error (.syntax pos _ left) => if 0 < left then .syntax pos else .lexError
   | .error .fuel => .fuel
   | .error .noEOF => .lexError
 
